@@ -247,3 +247,10 @@ mod testing {
 	}
 }
 
+
+#[cfg(feature = "verif")]
+pub mod verif {
+	//! Verification hook (feature `verif`): forwarding wrapper only.
+	use java_string::JavaStr;
+	pub fn strip_local_class_prefix(inner_name: &JavaStr) -> &JavaStr { super::strip_local_class_prefix(inner_name) }
+}
